@@ -199,6 +199,32 @@ Proof.
     exact Hocc.
 Qed.
 
+(* ... and in forward coordinates: the count-th match of the backward
+   non-overlapping scan that starts at the cursor *)
+Lemma doc_find_backwards_nth_fwd (d : doc) (sub : str) (ic : bool) (count : Z) :
+  0 <= dcur d <= len (dtext d) -> 1 <= count ->
+  match doc_find_backwards ceq d sub ic count with
+  | Some r => 0 <= dcur d + r /\
+              nth_match_back ceq ic sub (dtext d) (Z.to_nat (dcur d)) (Z.to_nat (count - 1)) (Z.to_nat (dcur d + r))
+  | None => forall p, ~ nth_match_back ceq ic sub (dtext d) (Z.to_nat (dcur d)) (Z.to_nat (count - 1)) p
+  end.
+Proof.
+  intros Hc Hcount. pose proof (doc_find_backwards_nth d sub ic count Hc Hcount) as H. cbv zeta in H.
+  destruct d as [t c]; cbn [dcur dtext] in *.
+  assert (Hct : (Z.to_nat c <= length t)%nat) by (unfold len in Hc; lia).
+  set (B := firstn (Z.to_nat c) t) in *.
+  assert (HB : length B = Z.to_nat c) by (subst B; rewrite firstn_length; lia).
+  destruct (doc_find_backwards ceq (mkdoc t c) sub ic count) as [r|].
+  - destruct H as (H0 & Hle & Hn & _). split; [exact H0|].
+    destruct (nth_to_back ceq ic sub B _ O _ (Nat.le_0_l _) Hn) as [Hb Hback].
+    rewrite HB, Nat.sub_0_r in Hback. unfold len in *.
+    replace (Z.to_nat c - Z.to_nat (- r - Z.of_nat (length sub)) - length sub)%nat with (Z.to_nat (c + r)) in Hback by lia.
+    apply (nth_back_firstn ceq ic sub t (Z.to_nat c) Hct _ _ _ (Nat.le_refl _)). exact Hback.
+  - intros p Hp. apply (nth_back_firstn ceq ic sub t (Z.to_nat c) Hct _ _ _ (Nat.le_refl _)) in Hp.
+    fold B in Hp. apply (back_to_nth ceq ic sub B) in Hp; [|lia].
+    rewrite HB, Nat.sub_diag in Hp. exact (H _ Hp).
+Qed.
+
 Lemma doc_find_count_below_1 (d : doc) (sub : str) (icp ic : bool) (count : Z) :
   count < 1 -> doc_find ceq d sub icp ic count = None /\ doc_find_backwards ceq d sub ic count = None.
 Proof.
@@ -717,6 +743,54 @@ Proof.
   unfold post. rewrite Hv, Hs'. destruct (vi s); cbn [andb negb with_main main searching]; auto.
 Qed.
 
+(* the preview and the landing position of accept are functions of the same
+   inputs: (working lines, index, cursor), field text, direction, ignore-case *)
+Lemma preview_accept_inputs s1 s2 :
+  main s1 = main s2 -> field s1 = field s2 -> ss_dir s1 = ss_dir s2 -> ign s1 = ign s2 ->
+  searching s1 = searching s2 ->
+  preview ceq s1 = preview ceq s2 /\
+  (field s1 <> [] -> main (accept_search ceq s1) = main (accept_search ceq s2)).
+Proof.
+  intros Hm Hf Hd Hi Hs. split.
+  - unfold preview. now rewrite Hm, Hf, Hd, Hi, Hs.
+  - intros Hne. unfold accept_search. rewrite <- Hf, (len_pos_nonnil _ Hne).
+    unfold stop_search, with_main, with_state, the_state. cbn [main field ss_text ss_dir ign].
+    now rewrite Hm, Hd, Hi.
+Qed.
+
+(* with the preview-side repair the preview IS where accept goes, whatever the field *)
+Lemma accept_preview_repaired s :
+  Inv (main s) -> searching s = true ->
+  bdoc (main (accept_search ceq s)) = preview_repaired ceq s.
+Proof.
+  intros HI Hs. unfold accept_search, preview_repaired. rewrite Hs.
+  destruct (len (field s) =? 0) eqn:Ef.
+  - unfold stop_search, with_main, the_state. cbn [main andb].
+    destruct (len (ss_text s) =? 0) eqn:Et; cbn [negb].
+    + (* empty needle, include_current_position: found at the cursor itself *)
+      unfold the_state. rewrite (apply_search_spec _ _ _ _ HI).
+      assert (E : search ceq (main s) (mkss (ss_text s) (ss_dir s) (ign s)) true 1 = SFound (wi (main s)) (cur (main s))).
+      { apply Z.eqb_eq in Et. assert (Hnil : ss_text s = []).
+        { destruct (ss_text s) as [|x l]; [reflexivity|]. rewrite len_cons in Et. pose proof (len_nonneg l). lia. }
+        rewrite Hnil. rewrite search_one. unfold search_once. cbn [sdir stext sic].
+        destruct HI as [Hw Hc].
+        assert (Hta : text_after_cursor (bdoc (main s)) = skipn (Z.to_nat (cur (main s))) (entry (wl (main s)) (wi (main s)))).
+        { unfold text_after_cursor, bdoc; cbn [dtext dcur]. apply slice_from_in_range; lia. }
+        assert (Htb : text_before_cursor (bdoc (main s)) = firstn (Z.to_nat (cur (main s))) (entry (wl (main s)) (wi (main s)))).
+        { unfold text_before_cursor, bdoc; cbn [dtext dcur]. apply slice_to_in_range; lia. }
+        destruct (ss_dir s =? 0).
+        - unfold doc_find. rewrite Hta. change (1 <? 1) with false. change (Z.to_nat (1 - 1)) with O. cbv iota.
+          assert (Hf0 : forall t i, find_nth ceq (ign s) [] t i 0 0 = Some i) by (intros [|? ?] i; reflexivity).
+          rewrite Hf0. cbn [bdoc dcur dtext]. now rewrite Z.add_0_r.
+        - unfold doc_find_backwards. rewrite Htb. change (1 <? 1) with false. change (Z.to_nat (1 - 1)) with O. cbv iota.
+          assert (Hf0 : forall t i, find_nth ceq (ign s) [] t i 0 0 = Some i) by (intros [|? ?] i; reflexivity).
+          change (rev []) with (@nil Z). rewrite Hf0. cbn [bdoc dcur dtext]. f_equal. f_equal. change (len (@nil Z)) with 0. lia. }
+      rewrite E. now rewrite moved_self.
+    + apply (preview_is_apply (main s) (the_state s) HI).
+  - unfold stop_search, with_main, with_state, the_state. cbn [main field ss_text ss_dir ign andb]. rewrite Ef. cbn [negb].
+    apply (preview_is_apply (main s) (mkss (field s) (ss_dir s) (ign s)) HI).
+Qed.
+
 (* field edits keep everything but the field *)
 Definition same_but_field (s s' : sess) : Prop :=
   main s' = main s /\ searching s' = searching s /\ ss_text s' = ss_text s /\
@@ -843,6 +917,30 @@ Proof.
   split; [reflexivity|]. exact (proj2 (search_real _ _ _ _ _ _ HI E)).
 Qed.
 
+(* ---------------------------------------------------------------------- *)
+(* two controls sharing one search field *)
+
+(* no search key ever touches the buffer of the other control, whatever is
+   remembered in the shared search state *)
+Lemma shared_other_untouched s k s' :
+  key_step2 ceq s (K2 k) = Some s' ->
+  other s' = other s /\ focus_a s' = focus_a s /\ preview_other s' = preview_other s.
+Proof.
+  unfold key_step2. destruct (key_step ceq (cs s) k); [|discriminate].
+  intros [= <-]. cbn. auto.
+Qed.
+
+(* moving the focus swaps the buffers and keeps the (shared) search state *)
+Lemma shared_switch s s' :
+  key_step2 ceq s KSwitch = Some s' ->
+  searching (cs s) = false /\ main (cs s') = other s /\ other s' = main (cs s) /\
+  ss_text (cs s') = ss_text (cs s) /\ ss_dir (cs s') = ss_dir (cs s) /\ searching (cs s') = false.
+Proof.
+  unfold key_step2. destruct (searching (cs s)) eqn:E; [discriminate|].
+  intros [= <-]. cbn [cs other main with_main ss_text ss_dir searching].
+  repeat split; try reflexivity. exact E.
+Qed.
+
 End Facts.
 
 (* The witness for the empty-field accept (finding C16-F1): two working lines
@@ -872,4 +970,18 @@ Proof.
   eexists. split; [|split; [reflexivity|split; [vm_compute; reflexivity|split; [reflexivity|]]]].
   - unfold Inv. vm_compute. repeat split; try reflexivity; intro; discriminate.
   - vm_compute. discriminate.
+Qed.
+
+(* The direction is a genuine input of the preview: two sessions that differ
+   in nothing but the direction show different documents ("a" before and after
+   the cursor of "aba", cursor 1: backward lands on 0, forward on 2). *)
+Lemma preview_needs_direction :
+  exists s1 s2, main s1 = main s2 /\ field s1 = field s2 /\ ign s1 = ign s2 /\ searching s1 = true /\
+    searching s2 = true /\ ss_text s1 = ss_text s2 /\ ss_dir s1 <> ss_dir s2 /\
+    preview ceq_tab s1 <> preview ceq_tab s2.
+Proof.
+  exists (mksess (mksbuf [[97; 98; 97]] 0 1) [97] 1 [] 0 false true false),
+         (mksess (mksbuf [[97; 98; 97]] 0 1) [97] 1 [] 1 false true false).
+  split; [reflexivity|]. split; [reflexivity|]. split; [reflexivity|]. split; [reflexivity|].
+  split; [reflexivity|]. split; [reflexivity|]. split; [cbn; discriminate|]. vm_compute. discriminate.
 Qed.
